@@ -402,6 +402,49 @@ pub fn gen_rename(r: &mut Rng) -> String {
     format!("sim C15 {}", cmds.join(" ; "))
 }
 
+/// A competing probe query for a name that is being probed, whose authority section holds only
+/// some of the records we propose - a strict prefix in probe order (TXT before SRV; one of two
+/// addresses), all equal to ours - or records that differ, or none at all.
+pub fn gen_probe_prefix(r: &mut Rng) -> String {
+    use mdns_sd::verif::parser::{RDataView, RecDesc};
+    let mut cmds: Vec<String> = vec![format!("daemon {}", ifaces_of(0, false))];
+    cmds.push("monitor 0 900".to_string());
+    cmds.push("ipint 0 100000".to_string());
+    cmds.push("jit 0 0".to_string());
+    let mut now = 1_000_000u64;
+    cmds.push(format!("run {}", now));
+    let inst = format!("pp{}", r.below(10));
+    let full = format!("{}._ok._udp.local.", inst);
+    let host = "pphost.local.";
+    cmds.push(format!("register 0 {} {} {} 80 2 192.168.1.10 192.168.1.11 0 1 0", hx("_ok._udp.local."), hx(&inst), hx(host)));
+    now += *r.pick(&[1u64, 100, 260, 510, 700]);
+    cmds.push(format!("run {}", now));
+    let txt = RecDesc { name: full.clone(), ty: 16, class: 0x8001, ttl: 4500, rdata: RDataView::Txt(vec![0]) };
+    let srv = RecDesc { name: full.clone(), ty: 33, class: 0x8001, ttl: 120, rdata: RDataView::Srv { priority: 0, weight: 0, port: 80, host: host.to_string() } };
+    let a1 = RecDesc { name: host.to_string(), ty: 1, class: 0x8001, ttl: 120, rdata: RDataView::Addr { ip: "192.168.1.10".parse().unwrap(), if_name: "x".into(), if_index: 0 } };
+    let a2 = RecDesc { name: host.to_string(), ty: 1, class: 0x8001, ttl: 120, rdata: RDataView::Addr { ip: "192.168.1.11".parse().unwrap(), if_name: "x".into(), if_index: 0 } };
+    let (qname, auth): (String, Vec<RecDesc>) = match r.below(8) {
+        0 => (full.clone(), vec![txt.clone()]),
+        1 => (full.clone(), vec![srv.clone()]),
+        2 => (full.clone(), vec![txt.clone(), srv.clone()]),
+        3 => (host.to_string(), vec![a1.clone()]),
+        4 => (host.to_string(), vec![a2.clone()]),
+        5 => (host.to_string(), vec![a1.clone(), a2.clone(), a1.clone()]),
+        6 => (full.clone(), vec![a1.clone()]),
+        _ => (full.clone(), vec![]),
+    };
+    let d = MsgDesc { questions: vec![(qname, 255)], authorities: auth, ..Default::default() };
+    if let Some(p) = parser::encode(&d).and_then(|v| v.into_iter().next()) {
+        cmds.push(format!("inject 0 2 1 192.168.1.77 5353 {}", hex(&p)));
+    }
+    now += 3000;
+    cmds.push(format!("run {}", now));
+    cmds.push("status 0 990".to_string());
+    cmds.push("metrics 0 991".to_string());
+    cmds.push(format!("run {}", now));
+    format!("sim C15 {}", cmds.join(" ; "))
+}
+
 pub fn generate(r: &mut Rng, tier: &str, emit: &mut dyn FnMut(String)) {
     let n = if tier == "thorough" { 4000 } else { 400 };
     for _ in 0..n * 4 {
@@ -411,7 +454,9 @@ pub fn generate(r: &mut Rng, tier: &str, emit: &mut dyn FnMut(String)) {
         // the packet builders go through the crate's own encoder: if that panics on a hostile
         // name (which is what the `cut-label` calls and the corpus report), skip the history
         let line = std::panic::catch_unwind(std::panic::AssertUnwindSafe(|| {
-            if i % 4 == 0 {
+            if i % 8 == 7 {
+                gen_probe_prefix(r)
+            } else if i % 4 == 0 {
                 gen_rename(r)
             } else if i % 2 == 0 {
                 gen_api(r)
